@@ -36,6 +36,17 @@ theorem es_backend_steps (cfg : ESCfg) :
       (esBackend cfg).evaluate = ES_evaluate cfg :=
   ⟨by funext s; exact (es_iterate_eq cfg s).symm, rfl, rfl⟩
 
+/-! DifferentialEvolutionOptimizer -/
+theorem de_constraint_loop_unfold (g : Geo) (e : Rat) (fuel : Nat) (p : Pos) (tape : Tape) :
+    constraintLoop g e (fuel + 1) p tape = DE_constraint_round g e fuel (constraintLoop g e fuel) p tape := by
+  rw [constraintLoop]; rfl
+theorem de_iterate_eq (cfg : DECfg) (s : PopSt) : DE_iterate cfg s = deIterate cfg s := rfl
+theorem de_init_pos_eq (cfg : DECfg) (s : PopSt) : DE_init_pos cfg s = ptInitPos s := rfl
+theorem de_evaluate_eq (cfg : DECfg) (s : PopSt) (score : F) : DE_evaluate cfg s score = psoEvaluate cfg.member s score := rfl
+theorem de_backend_steps (cfg : DECfg) :
+    (deBackend cfg).iterate = DE_iterate cfg ∧ (deBackend cfg).initPos = DE_init_pos cfg ∧ (deBackend cfg).evaluate = DE_evaluate cfg :=
+  ⟨rfl, rfl, rfl⟩
+
 /-- the three backends run the generated steps -/
 theorem pt_backend_steps (cfg : PTCfg) :
     (ptBackend cfg).iterate = PT_iterate cfg ∧ (ptBackend cfg).initPos = PT_init_pos cfg ∧ (ptBackend cfg).evaluate = PT_evaluate cfg :=
